@@ -609,7 +609,8 @@ fn catalogue_inner(prop: &str, t: Tier, seed: u64, out: &mut Vec<Entry>) {
         "C07" => {
             let f = vec!["kzg10::KZG10::{commit,open_with_witness_polynomial}", "kzg10::Randomness::rand", "MarlinKZG10/SonicKZG10/InnerProductArgPC/MarlinPST13/HyraxPC::{commit,open}", "OptionalRng"];
             let quick = t == Tier::Quick;
-            let mk = |sz: Size, polys: Vec<PolySpec>| { let mut c = Cfg::new(sz, polys); c.seed = seed; c.sym_rng = true; c.rng_nonzero = false; c };
+            // environment assumption: RNG draws are non-zero (a zero draw shortens the stored blinding polynomial)
+            let mk = |sz: Size, polys: Vec<PolySpec>| { let mut c = Cfg::new(sz, polys); c.seed = seed; c.sym_rng = true; c.rng_nonzero = true; c };
             let hs: Vec<usize> = if quick { vec![1, 2] } else { vec![1, 2, 3] };
             for h in &hs {
                 let h = *h;
